@@ -181,14 +181,15 @@ def _work(ctx: Ctx, item):
         items = draw(traffic.history(min_msgs=4, max_msgs=14, sources=(1, 2, 3, 4), name_pool=pool, commanded=True,
                                      single_keys=traffic.SINGLE_KEYS + ["59904/isoRequest"] * 3,
                                      fast_keys=["129029/gnssPositionData", "127489/engineParametersDynamic"]))
-        gaps = draw(st.lists(st.sampled_from([0.0, 0.001, 1.0, 20.0]), min_size=len(items), max_size=len(items)))
+        # time between two inputs; sometimes the system time is stepped BACK in between (NTP correction, operator, DST in local-time systems)
+        gaps = draw(st.lists(st.sampled_from([0.0, 0.001, 1.0, 20.0, 0.0, 1.0, -0.5, -45.0]), min_size=len(items), max_size=len(items)))
         # mostly inside the 10-minute discovery window; sometimes the history straddles or lies after its end (an unclaimed source
         # is then let through without identity, and a later claim must still take effect)
         start = draw(st.sampled_from([0.0, 0.0, 300.0, 590.0, 595.0, 700.0]))
         cap = 599.0 if start < 590.0 else 5000.0
         offs, t = [], start
         for g in gaps:
-            t = min(t + g, cap)
+            t = max(0.0, min(t + g, cap))
             if 599.0 < t < 601.0:
                 t = 601.0            # stay clear of the exact boundary (strict / non-strict comparison is not specified)
             offs.append(t)
@@ -252,6 +253,44 @@ def _deep(ctx: Ctx, item):
         ctx.report(f"C11|deep|identity-lost|{mode}", f"{wrong} messages of the permitted sender lost their identity (first: {first})", case)
 
 
+def _reclaims(ctx: Ctx, item=None):
+    """One address re-claimed hundreds of times by devices of alternating manufacturers (every NAME new, nothing of the earlier results
+    kept alive by the caller): after each claim the data of that address is gated by the manufacturer of the LATEST claim."""
+    from nmea2000.decoder import NMEA2000Decoder
+    import gc
+    data = {"kind": "single", "pgn": 127250, "src": 9, "dest": 255, "data": bytes([7, 0x10, 0x27, 0, 0, 0, 0, 0xFD])}
+    n = 0
+    for kw, allowed in (({"exclude_manufacturer_code": ["Garmin"], "exclude_pgns": [60928]}, {137: True, 229: False, 1855: True}),
+                        ({"include_manufacturer_code": ["Maretron"], "exclude_pgns": ["isoAddressClaim"]}, {137: True, 229: False, 1855: False}),
+                        ({"exclude_manufacturer_code": ["Garmin"]}, {137: True, 229: False, 1855: True})):
+        dec = NMEA2000Decoder(**kw)
+        wrong = []
+        for i in range(600):
+            mfg = (137, 229, 1855, 229, 137, 1855, 229)[i % 7]
+            nm = traffic.iso_name(1000 + i, mfg, inst_lo=i % 8, func=(130, 140, 150)[i % 3])
+            try:
+                traffic.feed(dec, {"kind": "claim", "pgn": 60928, "src": 9, "dest": 255, "data": nm.to_bytes(8, "little")})
+            except Exception:
+                pass
+            if i % 5 == 0:
+                gc.collect()
+            r = traffic.feed(dec, data)
+            n += 1
+            if (r is not None) != allowed[mfg]:
+                wrong.append((i, mfg, r is not None))
+            elif r is not None and (r.source_iso_name is None or r.source_iso_name.name != nm):
+                wrong.append((i, mfg, "identity"))
+            del r
+        ctx.count(600)
+        if wrong:
+            i, mfg, what = wrong[0]
+            kind = "identity-stale" if what == "identity" else ("leak-manufacturer" if what else "permitted-withheld")
+            ctx.report(f"C11|reclaims|{kind}", f"decoder {kw}: after re-claim number {i + 1} of address 9 (manufacturer code {mfg}) its data was "
+                       f"{'returned' if what is True else 'withheld' if what is False else 'returned with a stale identity'} ({len(wrong)} of 600 wrong)", {"reclaims": True})
+    ctx.nontrivial_extra += n
+    ctx.klass("reclaimed_address_rounds", n)
+
+
 def _clients(ctx: Ctx, item=None):
     """Claims, manufacturer filters and network mapping through each gateway client, with the link dropped and re-established in the
     middle: the client's decoder (and what it has learnt from claims) lives as long as the client."""
@@ -267,6 +306,7 @@ def _clients(ctx: Ctx, item=None):
 
 def run(ctx: Ctx):
     pmap(ctx, _clients, [None])
+    pmap(ctx, _reclaims, [None])
     import os
     if not os.environ.get("VF_SUBPASS"):
         # two sweeps of a 2^20-frame period fit in 2.2 million frames
@@ -276,6 +316,12 @@ def run(ctx: Ctx):
 
 
 def replay(ctx: Ctx, case):
+    if case.get("reclaims"):
+        from ..common import Ctx as _C
+        sub = _C(ctx.pid)
+        sub.known_open = {}
+        _reclaims(sub)
+        return [(b, v["what"], v["case"]) for b, v in sub.found.items()]
     if case.get("deep"):
         from ..common import Ctx as _C
         sub = _C(ctx.pid)
